@@ -66,6 +66,8 @@ def batch(prop, tier, sd):
         for i in range(nrand):
             out.append(ds.random_decl(rng, 'r%04d' % i, nmin=3, nmax=8, p_fallible=0.0, p_async=rng.choice([0.45, 0.6, 0.8]),
                                       zero_in_async=rng.choice([0, 0, 1, 2, 3])))
+        for i in range(25 if quick else 150):
+            out.append(ds.tree_decl(rng, 't%04d' % i, n=rng.randint(4, 7)))
         if prop == 'C02':
             base = [d for d in out if d['id'].startswith('r')][: (10 if quick else 60)]
             for d in base:
@@ -82,8 +84,8 @@ def batch(prop, tier, sd):
         want = 60 if quick else 500
         while n < want and tries < want * 40:
             tries += 1
-            d = ds.random_decl(rng, 'z%04d' % n, nmin=3, nmax=7, p_fallible=0.0, zero_in_async=rng.choice([2, 2, 3, 4]),
-                               constructs=rng.random() < 0.7)
+            d = ds.random_decl(rng, 'z%04d' % n, nmin=3, nmax=7, p_fallible=rng.choice([0.0, 0.3, 0.5]), p_async=rng.choice([0.45, 0.7]),
+                               zero_in_async=rng.choice([2, 2, 3, 4]), constructs=rng.random() < 0.7)
             if not ds.accepts(d):
                 continue
             byid = {p['id']: p for p in ds.eff_providers(d)}
@@ -119,6 +121,8 @@ def batch(prop, tier, sd):
             d = ds.random_decl(rng, 'f%04d' % i, nmin=3, nmax=6 if quick else 7,
                                p_fallible=0.5 if prop != 'C07' else 0.3, p_async=0.6,
                                zero_in_async=rng.choice([0, 1, 2, 2]))
+            if i % 4 == 1:
+                d['pkg_ctx'] = True     # the user's package declares `ctx` at package level: the injector's parameter is ctx0
             if i % 3 == 0:
                 # a provider that takes the context itself (the injector then has a user-supplied ctx parameter)
                 fns = [p for p in d['providers'] if p['kind'] == 'fn' and 'ctx' not in p['requires']]
@@ -300,7 +304,9 @@ def run(prop, tier, sd, rep, clauses, modes):
         for i, g, r_ in crashed:
             msg = r_['stderr']
             m = re.search(r'panic: ([^\n]*)', msg)
-            if m and 'rt.' not in m.group(1):
+            top = re.search(r'goroutine \d+ \[running\]:\n(\S+)', msg)
+            in_harness = bool(top and top.group(1).startswith('scratch/rt.'))
+            if m and 'rt.' not in m.group(1) and not in_harness:
                 if panic_clause:
                     real_sigs[panic_clause + '|' + m.group(1).strip()[:80]].append((i, -1, {'detail': msg[-3000:]}))
                 else:
